@@ -203,7 +203,7 @@ pub const AMOUNTS: [u128; 22] = [
 ];
 
 pub const LIFETIMES: [u64; 6] = [600, 601, 3600, 86_400, 1_209_599, 1_209_600];
-pub const BAD_LIFETIMES: [u64; 5] = [0, 1, 599, 1_209_601, u64::MAX];
+pub const BAD_LIFETIMES: [u64; 9] = [0, 1, 599, 1_209_601, u64::MAX, (1 << 32) + 600, (1 << 32) + 1_209_600, (1 << 16) + 1_209_600 + 65_536 * 20, (1 << 63) + 3600];
 pub const BPS_OK: [u64; 6] = [10, 11, 50, 100, 299, 300];
 pub const BPS_BAD: [u64; 5] = [0, 9, 301, 5000, u64::MAX];
 pub const MAX_SAFE_INT: u64 = 9_007_199_254_740_990;
@@ -531,7 +531,7 @@ impl<'w> Gen<'w> {
                 if own.is_empty() {
                     goods.native = self.native_set(2);
                 } else {
-                    let k = 1 + self.rng.below(2) as usize;
+                    let k = 1 + self.rng.below(4) as usize;
                     for _ in 0..k {
                         let (c, t) = self.rng.pick(&own).clone();
                         if !goods.nfts.iter().any(|n| n.contract_address.as_str() == c && n.token_id == t) {
@@ -629,10 +629,24 @@ impl<'w> Gen<'w> {
             match self.rng.below(3) {
                 0 => {
                     // same denom as an existing one (merge) or a new one
-                    let cs = if !b.funds.native.is_empty() && self.rng.chance(60) {
-                        vec![coin(self.amount(), &b.funds.native[0].denom)]
+                    let cs = if !b.funds.native.is_empty() && self.rng.chance(70) {
+                        // an existing denomination (merge), often together with new ones, in either order
+                        let mut cs = vec![coin(self.amount(), &b.funds.native[self.rng.below(b.funds.native.len() as u64) as usize].denom)];
+                        if self.rng.chance(60) {
+                            for c in self.native_set(3) {
+                                if !cs.iter().any(|x| x.denom == c.denom) {
+                                    cs.push(c);
+                                }
+                            }
+                            if self.rng.chance(50) {
+                                cs.sort_by(|a, b| a.denom.cmp(&b.denom));
+                            } else {
+                                self.rng.shuffle(&mut cs);
+                            }
+                        }
+                        cs
                     } else {
-                        self.native_set(2)
+                        self.native_set(3)
                     };
                     vec![x(&owner, cs, MMsg::AB { id })]
                 }
@@ -659,10 +673,23 @@ impl<'w> Gen<'w> {
             let owner = l.creator.to_string();
             match self.rng.below(3) {
                 0 => {
-                    let cs = if !l.for_sale.native.is_empty() && self.rng.chance(60) {
-                        vec![coin(self.amount(), &l.for_sale.native[0].denom)]
+                    let cs = if !l.for_sale.native.is_empty() && self.rng.chance(70) {
+                        let mut cs = vec![coin(self.amount(), &l.for_sale.native[self.rng.below(l.for_sale.native.len() as u64) as usize].denom)];
+                        if self.rng.chance(60) {
+                            for c in self.native_set(3) {
+                                if !cs.iter().any(|x| x.denom == c.denom) {
+                                    cs.push(c);
+                                }
+                            }
+                            if self.rng.chance(50) {
+                                cs.sort_by(|a, b| a.denom.cmp(&b.denom));
+                            } else {
+                                self.rng.shuffle(&mut cs);
+                            }
+                        }
+                        cs
                     } else {
-                        self.native_set(2)
+                        self.native_set(3)
                     };
                     vec![x(&owner, cs, MMsg::AL { id: l.id })]
                 }
@@ -1047,6 +1074,31 @@ impl<'w> Gen<'w> {
     /// Perturbed buckets and expiry instants for one finalized listing, in a sub-history.
     pub fn battery_buy_perturb(&mut self) {
         let now = self.h.sim.now();
+        // a listing still in preparation must not be purchasable even with an exactly matching bucket
+        let prep = self.my_listings(|l| l.status == Status::BeingPrepared);
+        if !prep.is_empty() {
+            let l = self.rng.pick(&prep).clone();
+            let buyer = if let Some(w) = &l.whitelisted_buyer {
+                w.to_string()
+            } else if let Some(n) = l.ask.nfts.first() {
+                self.h.sim.nft_owner(n.contract_address.as_str(), &n.token_id).filter(|o| self.h.sim.users().contains(o)).unwrap_or_else(|| l.creator.to_string())
+            } else {
+                self.other_user(l.creator.as_str())
+            };
+            self.push();
+            self.note(&format!("buy-perturb preparing listing {}", l.id));
+            let bid = self.fresh_id();
+            let ops = self.deposit_ops(&buyer, &l.ask, bid, None);
+            let mut ok = true;
+            for op in ops {
+                ok &= self.step(&op).ok;
+            }
+            if ok {
+                self.step(&x(&buyer, vec![], MMsg::BL { listing_id: l.id, bucket_id: bid }));
+                self.step(&x(l.creator.as_str(), vec![], MMsg::DL { id: l.id }));
+            }
+            self.pop();
+        }
         let ls = self.my_listings(|l| l.status == Status::FinalizedReady && l.expiration_time.map_or(false, |e| e > now));
         if ls.is_empty() {
             return;
